@@ -261,7 +261,7 @@ def prove(pid, timeout=3000):
 # step 3: building C drivers and the extracted model
 
 REPO_INC = ["alg", "aws", "cpusupport", "crypto", "datastruct", "events", "external/queue", "http",
-            "netbuf", "network", "util", "apisupport", "."]
+            "netbuf", "network", "network_ssl", "util", "apisupport", "."]
 
 BASE_CFLAGS = ["-O2", "-g", "-std=c99", "-D_POSIX_C_SOURCE=200809L", "-D_XOPEN_SOURCE=700",
                "-DLIBCPERCIVA_VERIF",
